@@ -31,6 +31,9 @@ SCENARIOS = {
 SCENARIOS[11] = "client RST while the origin stays open and silent: the proxy must end the tunnel on both sides by itself"
 SCENARIOS[13] = "upstream proxy sends its success reply and the origin's first bytes in one segment, more later, then FIN; the client reads to EOF, then uploads and closes"
 SCENARIOS[12] = "origin RST while the client stays open and silent: the proxy must end the tunnel on both sides by itself"
+SCENARIOS[14] = "client floods until it blocks on an origin that stopped reading, then the origin aborts (RST) with the proxy's buffers full; fresh tunnels follow on the same proxies"
+SCENARIOS[15] = "origin floods until it blocks on a client that stopped reading, then the client aborts (RST) with the proxy's buffers full; fresh tunnels follow on the same proxies"
+FLOOD_MAX = 96 << 20
 IDLE = 3   # timeouts.idle of the proxies in this monitor: only a tunnel silent in BOTH directions for that long may be reaped
 
 
@@ -131,6 +134,33 @@ class C04Origins:
                     rec["rst_t"] = now()
                     w.transport.abort()
                     return
+                elif scen == 14:
+                    # stop reading (small window), let the client's flood pile up in every buffer on the way, then abort
+                    sock = w.get_extra_info("socket")
+                    sock.setsockopt(socket.SOL_SOCKET, socket.SO_RCVBUF, 65536)
+                    w.transport.pause_reading()
+                    rec["paused"] = True
+                    for _ in range(int(WATCHDOG * 2 * 100)):
+                        if rec.get("abort_now"):
+                            break
+                        await asyncio.sleep(0.01)
+                    sock.setsockopt(socket.SOL_SOCKET, socket.SO_LINGER, struct.pack("ii", 1, 0))
+                    rec["rst_t"] = now()
+                    w.transport.abort()
+                    return
+                elif scen == 15:
+                    # flood a client that does not read until the write side blocks, then wait for the end
+                    chunk = b"\x5a" * (1 << 18)
+                    sent = 0
+                    try:
+                        while sent < FLOOD_MAX:
+                            w.write(chunk)
+                            sent += len(chunk)
+                            await asyncio.wait_for(w.drain(), 0.7)
+                    except asyncio.TimeoutError:
+                        rec["blocked"] = True
+                    rec["flooded"] = sent
+                    await read_until_eof(rec["c2s"])
                 elif scen == 6:
                     w.write(s2c)  # large: the client never reads it
                     try:
@@ -158,7 +188,7 @@ async def scenario(out, chain, origins, seed, uid, lk, ck, scen, io_name, n_c2s,
     want_s2c = keystream(seed, uid, "s2c", m_s2c)
     want_post = keystream(seed, uid, "post-s2c", P_AFTER)
     try:
-        conn, ok, detail = await chain.open_tunnel(lk, ck, "ipv4", rcvbuf=65536 if scen == 9 else None)
+        conn, ok, detail = await chain.open_tunnel(lk, ck, "ipv4", rcvbuf=65536 if scen in (9, 15) else None)
     except Exception as e:
         out.inconclusive += 1
         return None
@@ -394,6 +424,54 @@ async def scenario(out, chain, origins, seed, uid, lk, ck, scen, io_name, n_c2s,
                 out.violation("origin abort (RST) not relayed to the client [%s]" % io_name, {"who": who, "waited_s": WATCHDOG})
             elif not obs["client_observes_end"]:
                 out.violation("origin abort relayed late [%s]" % io_name, {"who": who})
+        elif scen == 14:
+            conn.write(c2s)
+            await conn.drain()
+            rec = await origin_rec()
+            if rec is None:
+                out.violation("origin never saw the tunnel: " + who, {"scenario": scen})
+                return None
+            chunk = b"\xa5" * (1 << 18)
+            sent, blocked = 0, False
+            try:
+                while sent < FLOOD_MAX:
+                    conn.write(chunk)
+                    sent += len(chunk)
+                    await asyncio.wait_for(conn.drain(), 0.7)
+            except asyncio.TimeoutError:
+                blocked = True
+            except (ConnectionError, OSError):
+                pass
+            obs["flood_blocked"] = blocked
+            out.count("floods_that_blocked" if blocked else "floods_that_never_blocked")
+            rec["abort_now"] = True
+            end = await read_to_eof(WATCHDOG)
+            obs["client_observes_end"] = end in ("eof", "rst")
+            if end == "timeout":
+                out.violation("origin abort (RST) with the proxy's buffers full not relayed to the client [%s]" % io_name, {"who": who, "waited_s": WATCHDOG, "flooded": sent})
+        elif scen == 15:
+            conn.write(c2s)
+            await conn.drain()
+            rec = await origin_rec()
+            if rec is None:
+                out.violation("origin never saw the tunnel: " + who, {"scenario": scen})
+                return None
+            for _ in range(int(WATCHDOG * 2 * 100)):
+                if "flooded" in rec or rec["closed_t"]:
+                    break
+                await asyncio.sleep(0.01)
+            obs["flood_blocked"] = bool(rec.get("blocked"))
+            out.count("floods_that_blocked" if rec.get("blocked") else "floods_that_never_blocked")
+            t_rst = now()
+            conn.abort()
+            for _ in range(int(WATCHDOG * 100)):
+                if rec["closed_t"]:
+                    break
+                await asyncio.sleep(0.01)
+            ended = rec["eof_t"] is not None or rec["rst"]
+            obs["origin_observes_end"] = ended
+            if not ended:
+                out.violation("client abort (RST) with the proxy's buffers full not relayed to the origin [%s]" % io_name, {"who": who, "waited_s": WATCHDOG, "flooded": rec.get("flooded")})
         elif scen == 6:
             conn.write(c2s)
             await conn.drain()
@@ -642,6 +720,34 @@ async def main(args):
                 if dead:
                     out.violation("proxy process died during close scenarios", {"dead": dead})
                     break
+            # ---- tunnels torn down with every buffer on the way full (scenarios 14, 15), then fresh tunnels on the same proxy
+            # processes: whatever a proxy keeps across tunnels (pooled pipes, buffers) must not carry bytes of a dead tunnel
+            # into a new one, and a new tunnel must still deliver everything before its end-of-stream
+            if not chain.dead():
+                dirty_pairs = [("http", "direct"), ("socks5", "direct"), ("reverse", "direct"), ("http", "h"), ("reverse", "s5")]
+                batch = []
+                for lk, ck in dirty_pairs:
+                    for sc in (14, 15):
+                        uid += 1
+                        batch.append((uid, lk, ck, sc, HLEN, 1))
+                obs = await asyncio.gather(*[scenario(out, chain, origins, args.seed, u, lk, ck, sc, io_name, n, m) for (u, lk, ck, sc, n, m) in batch])
+                for (u, lk, ck, sc, n, m), o in zip(batch, obs):
+                    if o is not None:
+                        expected.append((o.pop("src_port"), sc, lk))
+                for rnd in range(2):
+                    batch = []
+                    for lk, ck in dirty_pairs:
+                        for sc in (3, 1, 2):
+                            uid += 1
+                            batch.append((uid, lk, ck, sc, rng.choice([HLEN, HLEN + 1, 5000, 200_000]), rng.choice([1, 5000, 200_000])))
+                    obs = await asyncio.gather(*[scenario(out, chain, origins, args.seed, u, lk, ck, sc, io_name, n, m) for (u, lk, ck, sc, n, m) in batch])
+                    for (u, lk, ck, sc, n, m), o in zip(batch, obs):
+                        if o is not None:
+                            expected.append((o.pop("src_port"), sc, lk))
+                            out.count("fresh_tunnels_after_full_buffer_aborts")
+                dead = chain.dead()
+                if dead:
+                    out.violation("proxy process died during close scenarios", {"dead": dead})
             await check_history(out, chain, io_name, expected)
         finally:
             if origins:
